@@ -1,7 +1,7 @@
 -------------------------------- MODULE Find --------------------------------
 (* C17 -- discovery of the spokfile: walk from a start directory up towards a stop directory.   *)
 (* Configuration: a chain of directories L0 > L1 > ... > Ld (L0 outermost) plus one unrelated    *)
-(* directory U next to the chain; every directory independently holds: no entry named spokfile, *)
+(* directory U that hangs off the root or off any level of the chain (`ua`); every directory holds: no entry named spokfile, *)
 (* a regular file spokfile, or a directory spokfile; and optionally other entries sorting before *)
 (* and/or after the name "spokfile".  Above L0 and U lies the file-system root, whose parent is  *)
 (* itself.  Init ranges over every configuration, every start and every stop.                    *)
@@ -18,7 +18,11 @@
 (* with the step Abs that rewrites both paths to the clean spelling.  Variant "pinned" walks the *)
 (* strings as given: the stop test succeeds only when both spellings agree, filepath.Dir turns   *)
 (* "x/" into "x" (same directory, now clean), cleans a dotted path while moving up, and a        *)
-(* relative path bottoms out at "." (the working directory) -- named deviations.                 *)
+(* relative path bottoms out at "." (the working directory) -- named deviations.  Variant        *)
+(* "strings" is the repaired walk without the Abs step, "noabove" the walk with Abs but without   *)
+(* the test that keeps it out of the directories above stop (the code between the repairs): the   *)
+(* first is refuted by an unclean stop path alone, the second by a start that is not below stop.  *)
+(* "fixed" also looks at no directory that lies above the stop directory, wherever it started.    *)
 EXTENDS Integers
 
 CONSTANTS Depth, Variant,
@@ -37,24 +41,33 @@ VARIABLES spok,     \* [Dirs -> Kinds]
           after,    \* [Dirs -> BOOLEAN]   an entry sorting after "spokfile"
           start, stop, cur, phase, result,
           curSp, stopSp,   \* spelling of the path held in `start` (the loop variable) / of `stop`
-          cwd              \* working directory (matters for the "rel" spelling only)
-vars == <<spok, before, after, start, stop, cur, phase, result, curSp, stopSp, cwd>>
-cfgv == <<spok, before, after, start, stop>>
+          cwd,             \* working directory (matters for the "rel" spelling only)
+          ua               \* the directory U hangs off: Root or a level of the chain
+vars == <<spok, before, after, start, stop, cur, phase, result, curSp, stopSp, cwd, ua>>
+cfgv == <<spok, before, after, start, stop, ua>>
 
-Parent(d) == IF d = Root THEN Root ELSE IF d = U \/ d = 0 THEN Root ELSE d - 1
+Parent(d) == IF d = Root THEN Root ELSE IF d = U THEN ua ELSE IF d = 0 THEN Root ELSE d - 1
 
-\* declarative meaning: nearest directory from start up to stop (inclusive) that holds a regular file spokfile
-Constrained == start \in Levels /\ stop \in Levels /\ stop <= start
-Hits == {l \in stop..start : spok[l] = "file"}
-Expected == IF Hits = {} THEN NotFound ELSE CHOOSE l \in Hits : \A m \in Hits : m <= l
-Ancestors(d) == IF d = U THEN {U} ELSE 0..d
+\* the directories at or above d (the root apart: it never holds a spokfile here)
+Ancestors(d) == IF d = U THEN {U} \cup (IF ua = Root THEN {} ELSE 0..ua) ELSE 0..d
 AncestorsR(d) == Ancestors(d) \cup {Root}
+\* d lies above s: it is a proper ancestor of s
+Above(d, s) == d # s /\ (d = Root \/ d \in Ancestors(s))
+\* position on the way up from a directory: the larger, the nearer (U sits one below the level it hangs off)
+RankOf(d) == IF d = Root THEN 0 - 1 ELSE IF d = U THEN (IF ua = Root THEN 0 ELSE ua + 1) ELSE d
+\* declarative meaning (C17): the nearest directory at or above start, and NOT above stop, that holds a regular file spokfile --
+\* whether or not start lies below stop
+Constrained == stop \in Ancestors(start)
+Cands == {d \in Ancestors(start) : ~Above(d, stop)}
+Hits == {d \in Cands : spok[d] = "file"}
+Expected == IF Hits = {} THEN NotFound ELSE CHOOSE l \in Hits : \A m \in Hits : RankOf(m) <= RankOf(l)
 
 Init == /\ spok \in [Dirs -> Kinds] /\ before \in [Dirs -> BOOLEAN] /\ after \in [Dirs -> BOOLEAN]
         \* entries that are not named spokfile only matter where they can change the outcome:
         \* next to a spokfile entry, or in the stop directory; elsewhere they are fixed
         /\ \A d \in Dirs : after[d] => before[d] \/ spok[d] # "none"
         /\ start \in Dirs /\ stop \in Dirs
+        /\ ua \in (IF start = U \/ stop = U THEN Levels \cup {Root} ELSE {Root})      \* where U hangs only matters when U is start or stop
         /\ \E sp \in Spellings : curSp = sp[1] /\ stopSp = sp[2]
         \* a relative path names a directory at or below the working directory
         /\ cwd \in Dirs \cup {Root}
@@ -63,7 +76,7 @@ Init == /\ spok \in [Dirs -> Kinds] /\ before \in [Dirs -> BOOLEAN] /\ after \in
                 /\ stopSp = "rel" => cwd \in AncestorsR(stop)
            ELSE cwd = Root
         /\ cur = start /\ result = NoRes
-        /\ phase = IF Variant = "fixed" THEN "abs" ELSE "scan"
+        /\ phase = IF Variant \in {"fixed", "noabove"} THEN "abs" ELSE "scan"
 
 NonEmpty(d) == d = Root \/ spok[d] # "none" \/ before[d] \/ after[d]
 
@@ -83,8 +96,10 @@ NoParent == DirOf = <<cur, curSp>>
 
 \* read the directory `cur` and look at its entries in name order
 Scan == /\ phase = "scan"
-        /\ IF Variant \in {"fixed", "strings"}
-           THEN IF cur # Root /\ spok[cur] = "file"
+        /\ IF Variant \in {"fixed", "noabove", "strings"}
+           THEN IF Variant = "fixed" /\ Above(cur, stop)          \* a directory above the stop directory is not looked into
+                THEN result' = NotFound /\ phase' = "done"
+                ELSE IF cur # Root /\ spok[cur] = "file"
                 THEN result' = cur /\ phase' = "done"
                 ELSE result' = result /\ phase' = "stoptest"
            ELSE \* pinned: for each entry { if it is the spokfile: found; else if start == stop: not found }
@@ -110,20 +125,12 @@ Next == Abs \/ Scan \/ StopTest \/ Up \/ Stutter
 Spec == Init /\ [][Next]_vars /\ WF_vars(Abs \/ Scan \/ StopTest \/ Up)
 
 Terminates == <>(phase = "done")
-Correct == phase = "done" =>
-             IF Constrained THEN result = Expected
-             ELSE IF start \in Levels /\ stop \in Levels
-             THEN result = NotFound \/ (result \in Ancestors(start) /\ spok[result] = "file")     \* start above stop: either
-             ELSE LET H == {l \in Ancestors(start) : spok[l] = "file"} IN                           \* unrelated: nearest enclosing
-                  IF H = {} THEN result = NotFound ELSE result = (CHOOSE l \in H : \A m \in H : m <= l)
-NeverAboveStop == (Constrained /\ phase # "done") => cur >= stop
+Correct == phase = "done" => result = Expected
+\* nothing above the stop directory is ever returned, wherever the walk started
+NeverAboveStop == result \in Dirs => ~Above(result, stop)
 \* Correct without CHOOSE (the form proved for every Depth in FindProof.tla; TLC checks that the two agree)
 CorrectP == phase = "done" =>
-             IF Constrained THEN (IF Hits = {} THEN result = NotFound ELSE result \in Hits /\ \A m \in Hits : m <= result)
-             ELSE IF start \in Levels /\ stop \in Levels
-             THEN result = NotFound \/ (result \in Ancestors(start) /\ spok[result] = "file")
-             ELSE LET H == {l \in Ancestors(start) : spok[l] = "file"} IN
-                  IF H = {} THEN result = NotFound ELSE result \in H /\ \A m \in H : m <= result
+             IF Hits = {} THEN result = NotFound ELSE result \in Hits /\ \A m \in Hits : RankOf(m) <= RankOf(result)
 CorrectAgree == Correct <=> CorrectP
 \* the configuration space of the registered checks
 AllSpellings == {<<"clean", "clean">>, <<"slash", "clean">>, <<"clean", "slash">>, <<"slash", "slash">>, <<"dotted", "clean">>,
